@@ -12,6 +12,9 @@
  * Part D (property-tree histories): every sequence of 3 (thorough: 4) of 26
  * set / delete / set_subtree / copy calls on a small tree, then walk, copy,
  * delete.
+ * Part E (degenerate vnadata objects): 12 routes to a boundary shape x 11
+ * types x 21 operations (saves to every file family, conversions, setters,
+ * resize, load).
  * Oracle: process survives, ASan/UBSan silent, call returns, invalid calls
  * return the documented failure value, after the free functions the
  * allocation accounting is back at the baseline.  No numeric oracle.
@@ -542,7 +545,261 @@ static void run_vpd(int tier, long idx, vf_result *r)
     vf_exec_end(r, mark);
 }
 
-static long n_sweep, n_conv, n_hist, n_vpd;
+
+/* ---- Part E: degenerate vnadata objects x every operation ------------- */
+/*
+ * An object is brought to a boundary shape by one of the routes below
+ * (shapes no larger than 1 port or 1 frequency; reached fresh, by shrinking,
+ * in ordinary and in per-frequency impedance mode), given one of 11 types,
+ * and then every operation of the list is applied once.  Nothing is judged
+ * but survival, the sanitizers, a well-formed return value and the
+ * allocation accounting after vnadata_free.
+ */
+enum { VE_ALLOC, VE_INIT_000, VE_INIT_00N, VE_INIT_110, VE_INIT_111,
+    VE_INIT_121, VE_SHRINK_PORTS, VE_SHRINK_ALL, VE_SHRINK_FREQ,
+    VE_FZ0_SHRINK_PORTS, VE_FZ0_00N, VE_AAI_000, VE_NROUTE };
+static const char *const ve_route_name[VE_NROUTE] = {
+    "alloc only", "init 0x0x0", "init 0x0x2", "init 1x1x0", "init 1x1x1",
+    "init 1x2x1 (or 2x2x1)", "2x2x2 resized to 0x0x2", "2x2x2 resized to 0x0x0",
+    "2x2x2 resized to 2x2x0", "fz0 2x2x2 resized to 0x0x2",
+    "init 0x0x2 then set_fz0_vector", "alloc_and_init 0x0x0",
+};
+static const vnadata_parameter_type_t ve_types[] = {
+    VPT_UNDEF, VPT_S, VPT_T, VPT_U, VPT_Z, VPT_Y, VPT_H, VPT_G, VPT_A, VPT_B,
+    VPT_ZIN
+};
+#define VE_NTYPE ((int)(sizeof(ve_types) / sizeof(ve_types[0])))
+enum { VO_CKSAVE_NPD, VO_CKSAVE_S2P, VO_CKSAVE_TS, VO_SAVE_NPD, VO_SAVE_S1P,
+    VO_SAVE_S2P, VO_SAVE_TS, VO_FSAVE, VO_CONV_INPLACE, VO_CONV_OUT,
+    VO_CONV_ZIN, VO_GETTERS, VO_SET_Z0V, VO_SET_FZ0V, VO_SET_ALL_Z0,
+    VO_ADD_F, VO_RESIZE_UP, VO_SET_TYPE, VO_SET_FV, VO_LOAD_INTO,
+    VO_FORMATS, VO_NOP };
+static const char *const ve_op_name[VO_NOP] = {
+    "cksave .npd", "cksave .s2p", "cksave .ts", "save .npd", "save .s1p",
+    "save .s2p", "save .ts", "fsave", "convert in place (every type)",
+    "convert out of place (every type)", "convert to Zin", "every getter",
+    "set_z0_vector", "set_fz0_vector", "set_all_z0", "add_frequency",
+    "resize to 2x2x3", "set_type (every type)", "set_frequency_vector",
+    "load a 2-port file into it", "set_format (every spelling) + cksave",
+};
+
+static vnadata_t *ve_build(int route, vnadata_parameter_type_t type,
+	vf_errlog *lg)
+{
+    vnadata_t *vdp;
+    const double complex z2[2] = { 40.0 + 1.0 * I, 60.0 - 2.0 * I };
+    int sq = type == VPT_ZIN ? 0 : 1;	/* Zin is a row vector */
+
+    if (route == VE_AAI_000)
+	return vnadata_alloc_and_init((vnaerr_error_fn_t *)vf_errfn, lg,
+		type, 0, 0, 0);
+    vdp = vnadata_alloc((vnaerr_error_fn_t *)vf_errfn, lg);
+    if (vdp == NULL)
+	return NULL;
+    switch (route) {
+    case VE_ALLOC:
+	break;
+    case VE_INIT_000: (void)vnadata_init(vdp, type, 0, 0, 0); break;
+    case VE_INIT_00N: (void)vnadata_init(vdp, type, 0, 0, 2); break;
+    case VE_INIT_110: (void)vnadata_init(vdp, type, 1, 1, 0); break;
+    case VE_INIT_111: (void)vnadata_init(vdp, type, 1, 1, 1); break;
+    case VE_INIT_121:
+	(void)vnadata_init(vdp, type, sq ? 2 : 1, 2, 1);
+	break;
+    case VE_SHRINK_PORTS:
+	(void)vnadata_init(vdp, type, sq ? 2 : 1, 2, 2);
+	(void)vnadata_resize(vdp, type, 0, 0, 2);
+	break;
+    case VE_SHRINK_ALL:
+	(void)vnadata_init(vdp, type, sq ? 2 : 1, 2, 2);
+	(void)vnadata_resize(vdp, type, 0, 0, 0);
+	break;
+    case VE_SHRINK_FREQ:
+	(void)vnadata_init(vdp, type, sq ? 2 : 1, 2, 2);
+	(void)vnadata_resize(vdp, type, sq ? 2 : 1, 2, 0);
+	break;
+    case VE_FZ0_SHRINK_PORTS:
+	(void)vnadata_init(vdp, type, sq ? 2 : 1, 2, 2);
+	(void)vnadata_set_fz0_vector(vdp, 1, z2);
+	(void)vnadata_resize(vdp, type, 0, 0, 2);
+	break;
+    case VE_FZ0_00N:
+	(void)vnadata_init(vdp, type, 0, 0, 2);
+	(void)vnadata_set_fz0_vector(vdp, 0, z2);
+	break;
+    default:
+	break;
+    }
+    return vdp;
+}
+
+static void ve_getters(vnadata_t *vdp)
+{
+    int nf = vnadata_get_frequencies(vdp);
+    int rows = vnadata_get_rows(vdp), cols = vnadata_get_columns(vdp);
+    int ports = rows > cols ? rows : cols;
+    volatile double sink = 0;
+
+    (void)vnadata_get_type(vdp);
+    (void)vnadata_has_fz0(vdp);
+    (void)vnadata_get_fmin(vdp);
+    (void)vnadata_get_fmax(vdp);
+    (void)vnadata_get_frequency_vector(vdp);
+    (void)vnadata_get_z0_vector(vdp);
+    (void)vnadata_get_filetype(vdp);
+    (void)vnadata_get_format(vdp);
+    for (int f = -1; f <= nf; ++f) {
+	const double complex *m = vnadata_get_matrix(vdp, f);
+	const double complex *zv = vnadata_get_fz0_vector(vdp, f);
+	sink += vnadata_get_frequency(vdp, f);
+	if (m != NULL)
+	    for (int i = 0; i < rows * cols; ++i)
+		sink += creal(m[i]);
+	if (zv != NULL)
+	    for (int i = 0; i < ports; ++i)
+		sink += creal(zv[i]);
+	for (int q = -1; q <= ports; ++q) {
+	    sink += creal(vnadata_get_fz0(vdp, f, q));
+	    sink += creal(vnadata_get_cell(vdp, f, q, 0));
+	}
+    }
+    for (int q = -1; q <= ports; ++q)
+	sink += creal(vnadata_get_z0(vdp, q));
+    (void)sink;
+}
+
+static void ve_apply(fx_t *F, vnadata_t *vdp, int op, vf_errlog *lg)
+{
+    static const double complex z4[4] = { 30.0, 45.0 + 5.0 * I, 75.0, 10.0 };
+    static const double f4[4] = { 1e9, 2e9, 3e9, 4e9 };
+    static const char *const fmts[] = { "ri", "ma", "dB", "Sri", "Zma",
+	"Ydb", "IL", "RL", "VSWR", "PRC", "SRL", "ri,ma", "Tri", "Hma",
+	"zinri" };
+    char path[760];
+    vnadata_parameter_type_t type = vnadata_get_type(vdp);
+
+    switch (op) {
+    case VO_CKSAVE_NPD: (void)vnadata_cksave(vdp, "x.npd"); break;
+    case VO_CKSAVE_S2P: (void)vnadata_cksave(vdp, "x.s2p"); break;
+    case VO_CKSAVE_TS:  (void)vnadata_cksave(vdp, "x.ts"); break;
+    case VO_SAVE_NPD:
+	snprintf(path, sizeof(path), "%s", vf_tmp("ve.npd"));
+	(void)vnadata_save(vdp, path);
+	break;
+    case VO_SAVE_S1P:
+	snprintf(path, sizeof(path), "%s", vf_tmp("ve.s1p"));
+	(void)vnadata_save(vdp, path);
+	break;
+    case VO_SAVE_S2P:
+	snprintf(path, sizeof(path), "%s", vf_tmp("ve.s2p"));
+	(void)vnadata_save(vdp, path);
+	break;
+    case VO_SAVE_TS:
+	snprintf(path, sizeof(path), "%s", vf_tmp("ve.ts"));
+	(void)vnadata_save(vdp, path);
+	break;
+    case VO_FSAVE: {
+	FILE *fp;
+	snprintf(path, sizeof(path), "%s", vf_tmp("ve-f.npd"));
+	if ((fp = fopen(path, "w")) != NULL) {
+	    (void)vnadata_fsave(vdp, fp, "ve-f.npd");
+	    fclose(fp);
+	}
+	break;
+    }
+    case VO_CONV_INPLACE:
+	for (int t = 0; t < VE_NTYPE; ++t)
+	    (void)vnadata_convert(vdp, vdp, ve_types[t]);
+	break;
+    case VO_CONV_OUT:
+	for (int t = 0; t < VE_NTYPE; ++t) {
+	    vnadata_t *out = vnadata_alloc((vnaerr_error_fn_t *)vf_errfn, lg);
+	    if (out != NULL) {
+		(void)vnadata_convert(vdp, out, ve_types[t]);
+		ve_getters(out);
+		vnadata_free(out);
+	    }
+	}
+	break;
+    case VO_CONV_ZIN:
+	(void)vnadata_convert(vdp, vdp, VPT_ZIN);
+	(void)vnadata_resize(vdp, VPT_ZIN, 1, 2, 1);
+	break;
+    case VO_GETTERS:
+	break;
+    case VO_SET_Z0V: (void)vnadata_set_z0_vector(vdp, z4); break;
+    case VO_SET_FZ0V:
+	(void)vnadata_set_fz0_vector(vdp, 0, z4);
+	(void)vnadata_set_fz0_vector(vdp,
+		vnadata_get_frequencies(vdp) - 1, z4);
+	break;
+    case VO_SET_ALL_Z0: (void)vnadata_set_all_z0(vdp, 33.0 - 3.0 * I); break;
+    case VO_ADD_F:
+	(void)vnadata_add_frequency(vdp, 5e9);
+	(void)vnadata_add_frequency(vdp, 6e9);
+	break;
+    case VO_RESIZE_UP:
+	(void)vnadata_resize(vdp, type, type == VPT_ZIN ? 1 : 2, 2, 3);
+	break;
+    case VO_SET_TYPE:
+	for (int t = 0; t < VE_NTYPE; ++t)
+	    (void)vnadata_set_type(vdp, ve_types[t]);
+	break;
+    case VO_SET_FV: (void)vnadata_set_frequency_vector(vdp, f4); break;
+    case VO_LOAD_INTO: (void)vnadata_load(vdp, F->path_s2p); break;
+    case VO_FORMATS:
+	for (size_t i = 0; i < sizeof(fmts) / sizeof(fmts[0]); ++i) {
+	    (void)vnadata_set_format(vdp, fmts[i]);
+	    (void)vnadata_cksave(vdp, "x.npd");
+	    (void)vnadata_cksave(vdp, "x.s1p");
+	}
+	break;
+    default:
+	break;
+    }
+}
+
+static long ve_count(void) { return (long)VE_NROUTE * VE_NTYPE; }
+
+static void run_ve(long idx, vf_result *r)
+{
+    fx_t *F = &c3_F;
+    static vf_errlog lg;
+    int ti = (int)(idx % VE_NTYPE), route = (int)(idx / VE_NTYPE);
+    const char *err;
+    unsigned long mark;
+
+    vf_desc(r, "degenerate vnadata object: %s, type %s, then each of %d "
+	    "operations on a fresh copy; getters; free", ve_route_name[route],
+	    vnadata_get_type_name(ve_types[ti]), (int)VO_NOP);
+    mark = vf_exec_begin();
+    if ((err = fx_build(F)) != NULL) {
+	vf_fail(r, "fixture", "building the fixture failed at: %s", err);
+	fx_teardown(F);
+	vf_exec_end(r, mark);
+	return;
+    }
+    for (int op = 0; op < VO_NOP; ++op) {
+	vnadata_t *vdp;
+
+	vf_errlog_reset(&lg);
+	vdp = ve_build(route, ve_types[ti], &lg);
+	if (vdp == NULL)
+	    continue;	/* the route is refused for this type */
+	if (vf_verbose)
+	    vf_note("%s", ve_op_name[op]);
+	ve_apply(F, vdp, op, &lg);
+	++r->transitions;
+	ve_getters(vdp);
+	vnadata_free(vdp);
+    }
+    fx_teardown(F);
+    r->nontrivial = 1;
+    vf_outcome(r, "degenerate objects survived");
+    vf_exec_end(r, mark);
+}
+
+static long n_sweep, n_conv, n_hist, n_vpd, n_ve;
 
 static long count(int tier)
 {
@@ -550,7 +807,8 @@ static long count(int tier)
     n_conv = C3_NCONV;
     n_hist = hist_count(tier);
     n_vpd = vpd_count(tier);
-    return n_sweep + n_conv + n_hist + n_vpd;
+    n_ve = ve_count();
+    return n_sweep + n_conv + n_hist + n_vpd + n_ve;
 }
 
 static void init(int tier)
@@ -566,8 +824,10 @@ static void run(int tier, long idx, vf_result *r)
 	c3_run_conv((int)(idx - n_sweep), r);
     else if (idx < n_sweep + n_conv + n_hist)
 	run_hist(tier, idx - n_sweep - n_conv, r);
-    else
+    else if (idx < n_sweep + n_conv + n_hist + n_vpd)
 	run_vpd(tier, idx - n_sweep - n_conv - n_hist, r);
+    else
+	run_ve(idx - n_sweep - n_conv - n_hist - n_vpd, r);
 }
 
 vf_driver vf_drv = {
